@@ -156,13 +156,31 @@ func cmdCheck(args []string) int {
 	var all []Oblig
 	var revs []ruleEvidence
 	var errs []string
-	for _, rn := range pr.Rules {
+	for _, rspec := range pr.Rules {
+		rn, scope := rspec, ""
+		if i := strings.Index(rspec, "@"); i >= 0 {
+			rn, scope = rspec[:i], rspec[i+1:]
+		}
 		r := rules[rn]
 		if r == nil {
 			return fail("rule not registered: " + rn)
 		}
 		res := runRule(p, r)
-		re := ruleEvidence{Rule: rn, Applied: r.Doc, Floor: r.Floor, Stats: res.Stats, WallS: round2(res.Wall)}
+		if scope != "" {
+			// restrict the rule's obligations to the constructs this property is about
+			var kept []Oblig
+			for _, o := range res.Obligs {
+				body := strings.TrimPrefix(o.Key, rn+":")
+				for _, pre := range strings.Split(scope, "|") {
+					if strings.HasPrefix(body, pre) {
+						kept = append(kept, o)
+						break
+					}
+				}
+			}
+			res.Obligs = kept
+		}
+		re := ruleEvidence{Rule: rspec, Applied: r.Doc, Floor: r.Floor, Stats: res.Stats, WallS: round2(res.Wall)}
 		for _, o := range res.Obligs {
 			switch o.Status {
 			case OK:
@@ -179,7 +197,7 @@ func cmdCheck(args []string) int {
 		if res.Err != "" {
 			errs = append(errs, rn+": "+res.Err)
 		}
-		if re.Obligations < r.Floor {
+		if scope == "" && re.Obligations < r.Floor || scope != "" && re.Obligations == 0 {
 			errs = append(errs, fmt.Sprintf("%s: vacuity guard: %d obligations < floor %d (rule has gone blind?)", rn, re.Obligations, r.Floor))
 		}
 		if re.Obligations > 0 && re.Unmodelled*10 > re.Obligations {
